@@ -48,10 +48,6 @@ func init() {
 	reg("unicode/utf8.RuneCountInString", func(a []value) value { return int64(utf8.RuneCountInString(s(a[0]))) })
 	reg("unicode/utf8.ValidString", func(a []value) value { return utf8.ValidString(s(a[0])) })
 	reg("unicode/utf8.RuneLen", func(a []value) value { return int64(utf8.RuneLen(rune(i(a[0])))) })
-	reg("unicode/utf8.DecodeRuneInString", func(a []value) value {
-		r, n := utf8.DecodeRuneInString(s(a[0]))
-		return tuple{int64(r), int64(n)}
-	})
 	reg("strings.ToUpper", func(a []value) value { return strings.ToUpper(s(a[0])) })
 	reg("strings.TrimSpace", func(a []value) value { return strings.TrimSpace(s(a[0])) })
 	reg("strings.TrimRight", func(a []value) value { return strings.TrimRight(s(a[0]), s(a[1])) })
@@ -360,4 +356,32 @@ func init() {
 			return rune(n)
 		}, s)
 	})
+}
+
+// utf8.DecodeRuneInString on a symbolic string: the first character is split
+// off as in []rune conversion (valid sequences of 1-2 bytes; anything else is
+// outside the bound).
+func iDecodeRuneInString(m *machine, fr *frame, args []value) value {
+	s, sc := strArg(args[0])
+	if sc {
+		r, n := utf8.DecodeRuneInString(s.S)
+		return tuple{int64(r), int64(n)}
+	}
+	if m.branch(mkStrEq(s, mkStr(""))) {
+		return tuple{int64(utf8.RuneError), int64(0)}
+	}
+	c, _ := m.firstChar(s, 2)
+	if c.Op == "cs" {
+		r, n := utf8.DecodeRuneInString(c.S)
+		return tuple{int64(r), int64(n)}
+	}
+	size := int64(2)
+	if m.branch(mkIntEq(mkLen(c), mkInt(1))) {
+		size = 1
+	}
+	return tuple{&runeStr{enc: c}, size}
+}
+
+func init() {
+	intrinsics["unicode/utf8.DecodeRuneInString"] = iDecodeRuneInString
 }
